@@ -50,8 +50,8 @@ META = {
               "baize.routing.uuid.UUID -> text model (canonical lower-case text kept verbatim)"],
     "assumptions": ["route tables are an enumerated recipe list", "path characters are code points <= U+2FFFF (limit of z3's character sort)",
                     "value models of Decimal/date/UUID are validated by running the unshimmed code on every path's model"],
-    "bounds": {"quick": {"path_len_max": 6, "int_digits_max": 4, "decimal_digits": "<=3 integer + <=3 fraction digits"},
-               "thorough": {"path_len_max": 8, "int_digits_max": 6, "decimal_digits": "<=4 integer + <=4 fraction digits"}},
+    "bounds": {"quick": {"path_len_max": 8, "int_digits_max": 6, "decimal_digits": "<=4 integer + <=4 fraction digits"},
+               "thorough": {"path_len_max": 9, "int_digits_max": 7, "decimal_digits": "<=4 integer + <=4 fraction digits"}},
     "outside": ["longer paths / more digits", "route tables outside the recipe list", "code points above U+2FFFF", "user-defined convertors"],
     "expect_kinds": {"all": ["lemma", "dispatched", "404", "converted"]},
 }
@@ -831,7 +831,7 @@ def jobs(tier: str):
     out.append(dict(name="twin/route", kind="route", iface="wsgi", table="root", n=2, twin=True))
     for ni in range(1, b["int_digits_max"] + 1):
         out.append(dict(name=f"conv/int/{ni}", kind="conv", what="int", ni=ni))
-    lim = 3 if tier == "quick" else 4
+    lim = 4
     for ni in range(1, lim + 1):
         for nf in range(0, lim + 1):
             out.append(dict(name=f"conv/decimal/{ni}.{nf}", kind="conv", what="decimal", ni=ni, nf=nf, weight=4 ** (ni + nf)))
